@@ -89,7 +89,7 @@ if RERUN:
                 rc, out = rr.returncode, rr.stdout
             except subprocess.TimeoutExpired:
                 rc, out = -9, ""
-            sigs = re.findall(r"sig=(\S+) occurrences=(\d+)", out)
+            sigs = re.findall(r"sig=(.+?) occurrences=(\d+)", out)
             det[cid] = dict(rc=rc, sigs=sigs[:8], wall=round(time.time() - t1, 1))
             print("  %s-%s check %s: rc=%d %s (%.0fs)" % (pid, k, cid, rc, "DETECTED " + ", ".join(x for x, _ in sigs[:3]) if rc == 1 else ("inconclusive" if rc == 2 else "MISSED"), time.time() - t1))
     finally:
@@ -150,7 +150,7 @@ else:
         for cid in ids:
             t1 = time.time()
             rr = sh("cd /verif && ./check %s --tier quick" % cid, timeout=3600)
-            sigs = re.findall(r"sig=(\S+) occurrences=(\d+)", rr.stdout)
+            sigs = re.findall(r"sig=(.+?) occurrences=(\d+)", rr.stdout)
             det[cid] = dict(rc=rr.returncode, sigs=sigs[:8], wall=round(time.time() - t1, 1))
             print("  check %s: rc=%d %s (%.0fs)" % (cid, rr.returncode, "DETECTED " + ", ".join(s for s, _ in sigs[:3]) if rr.returncode == 1 else ("inconclusive" if rr.returncode == 2 else "MISSED"), time.time() - t1))
             if rr.returncode == 2:
